@@ -33,6 +33,18 @@ CHECKS = {
     'C13': dict(engine='ProcessCore', technique='TLA+ ProcessCore/ProcessProps, TLC exhaustive (C13_Continuation, C13_Outcome, ResumeValue) + replay with recorded (args, kwargs)',
                 text='Every command (Continue with args/kwargs, Wait+resume value, Stop, UnsuccessfulResult, Kill, raise) in chains of <=3 steps; the continuation records what it received.',
                 ref='5 C13', note=CORE_NOTE),
+    'C07': dict(engine='ProcessCore', technique='TLA+ ProcessCore Persist/Restore (C07_SaveLoadSave) + Outline SaveStepper/LoadStepper (C08_RoundTrip), TLC enumerates every save point; each exercised on real Bundle through copy/pickle/YAML',
+                text='Every state entry and paused point of every program and sampled outline is a save point; bundle -> medium -> unbundle -> bundle compared key by key; loaded process accessors compared with the original and with the specification state after Restore.',
+                ref='5 C07', note=CORE_NOTE + ' TLA+ does not model pickle/YAML: medium fidelity is established only for the bundles of the enumerated points.'),
+    'C08': dict(engine='ProcessCore+Outline', technique='TLA+ ProcessCore save/restore actions (C08_Equivalent vs reference run) + Outline CrashRestore (C09_Finished under crash sets), TLC exhaustive + replay with real Bundle/unbundle in fresh loops',
+                text='Every placement of <=K save/restore/resume actions and checkpoints at the k-th state entry for process programs; every crash set of <=M unit boundaries for every (outline, oracle); executed steps, outputs, ctx trace, final state and result equal the uninterrupted run.',
+                ref='5 C08', note=CORE_NOTE),
+    'C09': dict(engine='Outline', technique='TLA+ Outline: stepper tree small-step (mirrors workchains.py) refines BigStep structured semantics, TLC on every outline x oracle; each instance run on a generated real WorkChain',
+                text='Every outline with <=N nodes nested <=D x every predicate oracle; ordered call trace per RUNNING state and result() equal the TLA+ values.',
+                ref='5 C09', note='Trusted base: TLC, harness/outline_real.py (class generator, unit-by-unit runner).'),
+    'C20': dict(engine='Adapters', technique='TLA+ Adapters (futures, ready queue, synchronous kiwipy callbacks), TLC exhaustive (Faithful, ExactlyOnce, ActionOnce, Stable) + replay of every behaviour on the real adapters + validation of message_receive traces',
+                text='Chains of futures resolving to futures to depth 2 (4 thorough), every outcome at every level in every completion order, for create_task, plum_to_kiwi_future, unwrap_kiwi_future, their composition, convert_to_comm, _schedule_rpc replies and CancellableAction histories.',
+                ref='5 C20', note='Trusted base: TLC, harness/vloop.py, harness/adapters_real.py. Real cross-thread delivery is not explored.'),
 }
 
 PENDING = 'check not built yet (work in progress; see DESIGN.md section 12)'
@@ -50,6 +62,10 @@ m = {
     'engines': [
         {'name': 'ProcessCore', 'path': 'spec/ProcessCore.tla', 'serves_properties': ['C01', 'C02', 'C03', 'C04', 'C05', 'C06', 'C13'],
          'kind_free_text': 'explicit TLA+ specification of the process control protocol + TLC + graph replay (harness/core_*.py)'},
+        {'name': 'Outline', 'path': 'spec/Outline.tla', 'serves_properties': ['C09', 'C08', 'C07'],
+         'kind_free_text': 'explicit TLA+ specification of the WorkChain outline interpreter (stepper tree vs structured semantics, stepper persistence)'},
+        {'name': 'Adapters', 'path': 'spec/Adapters.tla', 'serves_properties': ['C20'],
+         'kind_free_text': 'explicit TLA+ specification of the future adapters and CancellableAction'},
     ],
     'checks': [],
     'notes': 'Model-based verification with explicit TLA+ specifications (spec/*.tla) checked by TLC and bound to /repo by replay '
